@@ -260,7 +260,11 @@ def c16_6(c: Ctx) -> None:
         if not tnodes:
             raise AnalysisError(f'{u}: {what} not found in the CFG')
         tids = {n.id for n in tnodes}
-        susp = [n for n in g.live_nodes() if n.id not in tids and q.node_has_await(n)]
+        def enters_timeout_only(n) -> bool:
+            # `async with asyncio.timeout(..)` does not suspend on entry
+            return n.kind == 'with' and isinstance(n.ast, ast.AsyncWith) and all(isinstance(it.context_expr, ast.Call) and U(it.context_expr.func) in ('asyncio.timeout', 'asyncio.timeout_at') for it in n.ast.items)
+
+        susp = [n for n in g.live_nodes() if n.id not in tids and q.node_has_await(n) and not enters_timeout_only(n)]
         bad = None
         for sn in susp:
             # a suspension point that lies on a path entry -> ... -> target
